@@ -236,6 +236,59 @@ fn with_limit<T: Send + 'static>(limit: Duration, f: impl FnOnce() -> T + Send +
     }
 }
 
+/// A valid database file (clean close) produced by a history; None if the history fails.
+pub fn valid_file_pub(history: &[crate::vgen::Step]) -> Option<Vec<u8>> {
+    let dir = TempDir::new("c07seed");
+    let name = dir.file("valid.agdb");
+    let mut db = DbFile::new(&name).ok()?;
+    let mut model = RefDb::default();
+    let mut info = HistInfo::default();
+    run_history(&mut model, &mut db, history, &HistOpts { dump_every: 0, check_after_failure: true }, &mut info).ok()?;
+    drop(db);
+    std::fs::read(&name).ok()
+}
+
+/// For the libFuzzer target: the bytes as a database file (plus an optional recovery log),
+/// opened with every variant and read completely, without helper threads (the fuzzer's own
+/// timeout handles reads that never return).
+pub fn open_and_read_pub(data: &[u8], log: Option<&[u8]>) -> Result<(), Fail> {
+    let dir = TempDir::new("c07f");
+    for opener in 0..3u8 {
+        let path = dir.file(&format!("fuzz-{opener}.agdb"));
+        std::fs::write(&path, data).map_err(|e| Fail::new("harness: write", format!("{e:?}")))?;
+        if let Some(l) = log {
+            std::fs::write(wal_name(&path), l).map_err(|e| Fail::new("harness: write log", format!("{e:?}")))?;
+        }
+        let name = ["Db::new", "DbFile::new", "DbMemory::new"][opener as usize];
+        let r: Result<(), Fail> = (|| {
+            match opener {
+                0 => {
+                    if let Ok(db) = catch(|| Db::new(&path))? {
+                        read_everything(&db, data.len())?;
+                    }
+                }
+                1 => {
+                    if let Ok(db) = catch(|| DbFile::new(&path))? {
+                        read_everything(&db, data.len())?;
+                    }
+                }
+                _ => {
+                    if let Ok(db) = catch(|| DbMemory::new(&path))? {
+                        read_everything(&db, data.len())?;
+                    }
+                }
+            }
+            Ok(())
+        })();
+        r.map_err(|mut f| {
+            f.sig = format!("damaged file: {}", f.sig);
+            f.detail = format!("{} ({name})", f.detail);
+            f
+        })?;
+    }
+    Ok(())
+}
+
 fn c07_case(c: &DamageCase) -> CaseResult {
     let mut ci = CaseInfo::default();
     if RUNAWAYS.load(Ordering::SeqCst) >= MAX_RUNAWAYS {
@@ -361,6 +414,7 @@ fn damage_case() -> impl Strategy<Value = DamageCase> {
 }
 
 pub fn c07(ctx: &mut Ctx) {
+    crate::fuzz_api::replay_raw_saved(ctx);
     ctx.rule = "valid database files produced by generated histories through the public API (clean close), damaged by 1-2 structured mutations: truncation at a parsed record boundary +-{0,1,8} or anywhere, bit flips, overwriting the index or size field of a parsed record header / a word of the root record / any 8-byte word with boundary values (0, 1, 2, count+-1, 2^32, 2^40, 2^63, u64::MAX, u64::MAX-15), single bytes (value-index type/size nibbles), random files of 0..4 KiB; with or without a recovery log that is garbage, a valid-looking record with boundary position/length, or an oversized length. Each image is opened with Db::new, DbFile::new and DbMemory::new (own copies) in isolated child processes with a 64 MiB single-allocation cap; if it opens, everything is read: node count, every id in a range bounded by the file size (values, keys, key count, alias, edge count, bfs/dfs from/to with limit), pool aliases, indexes and index searches, then the unbounded scans (all aliases, elements). Oracle: every call returns Ok or Err - no panic, abort, or enormous allocation. A call that does not answer within 3 s is undecided (counted, not judged). evaluations = image x opener. Non-trivial: the image differs from the valid file and its version record is intact (so validation, not the first read, is exercised). Distinct = hash of the case.".into();
     let cases = ctx.tier.pick(2500, 60_000);
     replay_saved::<DamageCase, _>(ctx, "c07-damage", c07_case);
